@@ -25,7 +25,7 @@ def codePointsWhere (p : Char → Bool) (n : Nat) : List Nat :=
 def bannerOp (op : String) (args : List String) : Option J :=
   match op, args with
   | "banner.parse", [s] => do let s ← decStr s; pure (jok (J.ofOpt jbanner (parse s)))
-  | "banner.rx", [s] => do let s ← decStr s; pure (jok (J.ofOpt jgroups (rxBanner s)))
+  | "banner.rx", [s] => do let s ← decStr s; pure (jok (J.ofOpt jgroups (rxBanner (toPrintAscii s))))
   | "banner.reparse", [s] => do
       let s ← decStr s
       pure (jok (J.ofOpt (fun b => J.ofOpt jbanner (parse (render b))) (parse s)))
